@@ -131,3 +131,18 @@ pub fn ctl_opt_value_ok(o: Option<opt::SpanOpt<bool>>) -> bool {
         None => false,
     }
 }
+
+// ---- controls for the build-configuration rule (token-level scan of the source) ----
+pub fn ctl_cfg_macro() -> bool {
+    cfg!(debug_assertions)
+}
+#[cfg(target_os = "linux")]
+pub fn ctl_cfg_attr_item() -> u8 {
+    1
+}
+pub fn ctl_env_macro() -> Option<&'static str> {
+    option_env!("PROFILE")
+}
+pub fn ctl_line_macro() -> u32 {
+    line!()
+}
